@@ -106,7 +106,25 @@ def oracle_path(case):
     return run_checked(case, path_args=case["path"])
 
 
+FDIV_NAMES = ["mi", "kl_ovo", "tv_ova", "tv_ovo", "hellinger_ova", "hellinger_ovo", "chi2_ova", "chi2_ovo"]
+
+
+@st.composite
+def large_fit_case(draw):
+    cls = draw(st.sampled_from(["LinearModel", "MLPModel", "SparseLinearModel", "SparseMLPModel", "CategoricalModel", "Douglas", "RIM"]))
+    s = draw(E.est_spec(classes=[cls], n_max=12, d_max=3, iter_max=1, k_max=4, hidden_max=4, n_min=4, cuts_max=2,
+                        gem_names=FDIV_NAMES, allow_instance=False, xkinds=("normal",)))
+    s["n"] = draw(st.integers(1030, 2300))
+    if "batch_size" in s:
+        s["batch_size"] = draw(st.sampled_from([None, 1024, 1025, 700]))
+    return {"spec": s, "mlcl": None, "dseed": draw(gens.seeds)}
+
+
 def subs():
+    return [Sub("fit_large_n", large_fit_case(), oracle_fit, 16, 300, "f-divergence fits on 1030-2300 samples (blocked gradient code)")] + _subs()
+
+
+def _subs():
     fam = {
         "linear": ["LinearModel", "LinearMMD", "LinearWasserstein", "RIM", "KernelRIM"],
         "mlp": ["MLPModel", "MLPMMD", "MLPWasserstein"],
